@@ -116,6 +116,25 @@ var C10 = register(&HistProp{ID: "C10",
 			queueOps(g, ops[1:]...)
 			return ops[0]
 		}
+		if i > 0 && g.Pct("restart", 3) {
+			// a genesis round trip (possibly with an ownership transfer in flight), then every holder acts
+			m := g.W.Model
+			for slot := 0; slot < 4; slot++ {
+				var types []string
+				for _, t := range sim.AdminTypes {
+					if sim.RoleSlotOf(t) == slot {
+						types = append(types, t)
+					}
+				}
+				queueOps(g, g.AdminOpOf(fmt.Sprintf("afterrestart%d", slot), sim.Pick(g, fmt.Sprintf("art%d", slot), types), m.Roles[slot]))
+			}
+			if m.Pending != nil {
+				if a, err := sdk.AccAddressFromBech32(*m.Pending); err == nil && sim.AcctOfBytes(a) >= 0 {
+					queueOps(g, g.AdminOpOf("afterrestart-pending", "UpdateMaxMessageBodySize", *m.Pending))
+				}
+			}
+			return restartOp(g)
+		}
 		// right after a role moved: the previous holder (and the new one) try an action of that role
 		if n := len(g.W.Steps); n > 0 && g.Pct("followup", 50) {
 			last := g.W.Steps[n-1]
